@@ -1548,6 +1548,10 @@ def run(ctx):
     n = 0
     for i in range(0, len(sp_cases), 400):
         n += evaluate_sp(ctx, exes, sp_cases[i:i + 400], stats)
+        if quick and any("timeout after" in why for _, why in ctx._violations):
+            # a hang is already reported with its input; every further batch would cost three more timeouts
+            ctx.note("remaining batches skipped: the routine hangs (violation recorded)")
+            break
     generic_cases = [gen_generic(rng, rng.choice([4, 8, 16, 32, 64]), rng.choice([1, 2, 3, 5]))
                      for _ in range(20 if quick else 200)]
     if quick and ctx.has_violation():
